@@ -1511,6 +1511,9 @@ class Interp:
                 return SV(smt.simp(res.t), T.STR)
             if attr in ms:
                 return enum_value_sv(ci, attr)
+            m_ = ci.find_method(attr)
+            if m_ is not None:  # a method defined on the enumeration
+                return PBound(SV(base.t, T.ENUM(ci), base.c), m_)
             raise Refuse(f"enum attribute {attr}")
         if ty.k in ("list", "dict", "set", "str", "tuple", "ip", "float", "int"):
             return PContainerMethod(SV(base.t, ty, base.c), attr)
@@ -1520,6 +1523,12 @@ class Interp:
                 # a class object of that enum family (e.g. Type[BaseKillChain]): members every family member repeats
                 st.log.append(f"member {attr} read through a class object of type Type[{inner.a[0].name}]: taken from {inner.a[0].name}")
                 return enum_value_sv(inner.a[0], attr)
+            if inner.k in ("enum", "obj"):
+                m_ = inner.a[0].find_method(attr)
+                if m_ is not None:
+                    # a method fetched from a class object (a member of that class family): called unbound, explicit self
+                    st.log.append(f"method {attr} fetched from a class object of type Type[{inner.a[0].name}]: {inner.a[0].name}'s contract / body is used")
+                    return PBound(None, m_)
             raise Refuse(f"attribute {attr} of class object {ty}")
         if ty.k == "ext":
             return self.ext_attr(base, ty.a[0], attr)
